@@ -90,7 +90,7 @@ def _gen_container(rng, recovery=False):
 def gen_workload(rng, tier):
     recovery = rng.random() < 0.3
     wl = gen.gen_fit_c12(rng, quick=(tier == "quick"), recovery=recovery)
-    if rng.random() < (0.15 if recovery else 0.1):
+    if rng.random() < (0.3 if recovery else 0.1):
         # recovery on container circuits was calibrated separately: 42 of 42 workloads recover with pseudo
         # chi-squared <= 1.1e-13, impedance 1.1e-7, parameters 1.1e-5 relative (same thresholds as the plain families)
         wl = _gen_container(rng, recovery=recovery)
